@@ -523,6 +523,9 @@ def c13_oracle_cases(tier, seed):
         cases.append(script_case(cmds, mode=mode, validator=vk, reads=40, timeout=0 if mode == "vi" else rng.choice(["none", 0]),
                                  prompt=rng.choice(["> ", ""]), cols=rng.choice([80, 80, 20]),
                                  hints=["ok then"] if rng.random() < 0.15 else None))
+        if len(cases) % 4 == 0:
+            # an application that switched colours off (or forces them): the validator has the same say
+            cases[-1].meta["color_mode"] = ["disabled", "forced"][(len(cases) // 4) % 2]
     return cases
 
 
@@ -1388,7 +1391,7 @@ def gen_c14(rng, ct, cands=()):
             cmds.append(Cmd(["Tab"], "c_tab") if rng.random() < 0.7 else Cmd(["BackTab"], "c_back"))
         r = rng.random()
         if r < 0.3:
-            cmds.append(Cmd([rng.choice(["C-g", "Esc"])], "c_abort"))
+            cmds.append(Cmd([rng.choice(["C-g", "Esc", "M-\x07"])], "c_abort"))      # (M-C-g aborts too)
         elif r < 0.7:
             key, tag = rng.choice([("Left", "left"), ("Right", "right"), ("C-a", "home"), ("C-e", "end")])
             cmds.append(Cmd([key], tag))
@@ -1414,6 +1417,17 @@ def c14_oracle_cases(tier, seed):
         cases.append(script_case(gen_c14(rng, ct, cands), mode="emacs", completion=ct, cands=cands, timeout=0,
                                  prompt=rng.choice(["> ", "日> "]), cols=rng.choice([80, 80, 30]),
                                  initial=p_tty.mk_initial(rng, 0.4, ["f", "o", " ", "b", "a", "é", "|"])))
+    # the window is resized while a completion is waiting for its next key: the completion goes on as if nothing had happened
+    # (the next Tab shows the next candidate, Escape / C-g still restores the original text)
+    for i in range(max(10, n // 15)):
+        ct = ["circular", "circular", "list"][i % 3]
+        cands = rng.sample(C14_CANDS, rng.choice([2, 3, 4]))
+        cmds = gen_c14(rng, ct, cands)
+        chunks = [b"".join(p_tty.key_bytes(k) for k in cmd.keys) for cmd in cmds]
+        c = script_case(cmds, mode="emacs", completion=ct, cands=cands, timeout=0, prompt="> ", cols=80, chunks=chunks)
+        tabs = [k for k, cmd in enumerate(cmds) if cmd.tag in ("c_tab", "c_back")]
+        c.meta["events"] = {k: [("winch", rng.choice([60, 30, 100]))] for k in rng.sample(tabs, min(len(tabs), 2))}
+        cases.append(c)
     return cases
 
 
@@ -1568,6 +1582,18 @@ def c17_text_cases(tier, seed):
         if "highlight" in c.meta:
             c.helper = True
         cases.append(c)
+    # the line for the NEXT read typed while the application is busy between two reads of one editor (the terminal is in its
+    # cooked mode then, the child stopped): the next read returns it
+    for i in range(max(6, n // 12)):
+        first = p_tty.rand_text(rng, 1, 8, ["a", "b", "x", "q"])
+        second = p_tty.rand_text(rng, 1, 20, ["a", "b", " ", "é", "日", "x", ",", "(", "q"])
+        mode = ["emacs", "vi"][i % 2]
+        c = Case(list(first) + ["Enter"], mode=mode, timeout=0 if mode == "vi" else ["none", 0][(i // 2) % 2], prompt="> ", reads=2,
+                 chunks=[first.encode("utf-8") + b"\r"], printer=i % 3 == 0, cols=80,
+                 meta={"text": first, "spec_extra": ["pause 1"], "no_model": 1,
+                       "events": {"at_stop:0": second.encode("utf-8") + b"\r"},
+                       "expect_results": ["R line:" + enc([ord(ch) for ch in first]), "R line:" + enc([ord(ch) for ch in second])]})
+        cases.append(c)
     return cases
 
 
@@ -1662,6 +1688,9 @@ def c17_corr(res, exe, driver, tier, seed, tmp):
         elif "S done" not in raw["obs"] or len(rl) != c.reads:
             res.oracle_failures.append({"stream": "junk", "case": line, "keys": c.keys, "events": c.meta.get("events"),
                                         "why": "no result: %d results for %d reads" % (len(rl), c.reads)})
+        elif c.meta.get("expect_results") and rl != c.meta["expect_results"]:
+            res.oracle_failures.append({"stream": "junk", "case": line, "keys": c.keys, "events": jsonable(c.meta.get("events")),
+                                        "why": "keys lost: the reads answered %s, expected %s (the second line was typed between the two reads)" % (rl, c.meta["expect_results"])})
         elif c.meta.get("expect_first") and rl and rl[0] != c.meta["expect_first"]:
             # every key that arrived before the accepting Enter has taken effect: the first read returns exactly this
             res.oracle_failures.append({"stream": "junk", "case": line, "keys": c.keys, "events": c.meta.get("events"),
@@ -2022,6 +2051,22 @@ def c02_cases(tier, seed):
         c = script_case(cmds, mode="emacs", cols=cols0, prompt=prompt, chunks=chunks, timeout=rng.choice(["none", 0]))
         c.meta.update({"events": {at: [("winch", newc)]}, "resize_at": {at: newc}})
         cases.append(c)
+    # the window shrinks to EXACTLY the width of prompt + line (one row; the cursor at the end then belongs on the next row), or to
+    # one cell more, then cursor motions: every later picture and cursor cell is right for the new width
+    for i in range(max(8, n // 25)):
+        prompt = ["> ", "日本> ", "", "ab> "][i % 4]
+        body = p_tty.rand_text(rng, 3, 14, ["a", "b", " ", "x", "y"])
+        cmds = [Cmd([ch], "ins", c=ord(ch), n=1) for ch in body]
+        at = len(cmds) - 1
+        pw = sum(2 if ord(ch) > 0x2e80 else 1 for ch in prompt)
+        newc = pw + len(body) + (i // 4) % 2
+        for key in [["C-b", "C-a", "C-e", "C-b"], ["C-a", "C-f", "C-e"], ["C-b", "C-b", "C-f", "C-f"]][i % 3]:
+            cmds.append(Cmd([key], "motion"))
+        cmds += [Cmd(["F12"], "noop"), Cmd(["Enter"], "enter")]
+        chunks = [b"".join(p_tty.key_bytes(k) for k in cmd.keys) for cmd in cmds]
+        c = script_case(cmds, mode="emacs", cols=[40, 30][i % 2], prompt=prompt, chunks=chunks, timeout=rng.choice(["none", 0]))
+        c.meta.update({"events": {at: [("winch", newc)]}, "resize_at": {at: newc}, "resize_fits": 1})
+        cases.append(c)
     # a validator message shown while the cursor is INSIDE the line (Enter there), text + message wrapping around a narrow
     # window, then repaints in that state: motions, insertions, deletions, another Enter
     for i in range(max(8, n // 12)):
@@ -2097,9 +2142,28 @@ def eval_c02(res, cases_out, stream, width):
             except UnicodeDecodeError:
                 break
             # stop before the end-of-read sequence
+            if (k - 1) in resize_at and c.meta.get("resize_fits"):
+                # the window shrinks to a width the one-row picture still fits in (exactly, or with a cell to spare): nothing for
+                # the terminal to re-wrap, so the picture goes on being judged -- what was written before the resize is shown for the
+                # old width, what the editor writes on the signal (a repaint, if it makes one) and later for the new width
+                wm = [m for m in raw.get("winch_marks", []) if fed <= m <= end]
+                if not wm:
+                    break
+                try:
+                    scr.feed(decoded(out[fed:wm[0]]))
+                    piece = decoded(out[wm[0]:end])
+                except UnicodeDecodeError:
+                    break
+                cols_now = resize_at[k - 1]
+                scr.W = cols_now
+                for rr in list(scr.rows):
+                    scr.rows[rr] = (scr.rows[rr] + [None] * cols_now)[:cols_now]
+                scr.c = min(scr.c, cols_now - 1)
+                scr.pending = False
+                stats["resize_fits"] = stats.get("resize_fits", 0) + 1
             scr.feed(piece)
             fed = end
-            if (k - 1) in resize_at:
+            if (k - 1) in resize_at and not c.meta.get("resize_fits"):
                 # the window was resized after chunk k-1: what a terminal shows of the OLD picture is its own business; judged again
                 # once the screen has been cleared (C-l) and drawn afresh
                 cols_now = resize_at[k - 1]
